@@ -39,6 +39,30 @@ Proof.
     destruct (p k); simpl; intuition discriminate.
 Qed.
 
+(* a field matched by several selectors is selected once: the selection never repeats a name *)
+Lemma NoDup_filter (A : Type) (f : A -> bool) (l : list A) : NoDup l -> NoDup (filter f l).
+Proof.
+  induction l as [|x r IH]; simpl; intros H; [constructor|]. inversion H as [|? ? Hx Hr]; subst.
+  destruct (f x); [constructor; [rewrite filter_In; tauto|apply IH, Hr]|apply IH, Hr].
+Qed.
+
+Lemma NoDup_app_disjoint (A : Type) (a b : list A) :
+  NoDup a -> NoDup b -> (forall x, In x a -> ~ In x b) -> NoDup (a ++ b).
+Proof.
+  induction a as [|x r IH]; simpl; intros Ha Hb D; [exact Hb|]. inversion Ha as [|? ? Hx Hr]; subst.
+  constructor.
+  - rewrite in_app_iff. intros [H|H]; [exact (Hx H)|exact (D x (or_introl eq_refl) H)].
+  - apply IH; [exact Hr|exact Hb|]. intros y Hy. apply D. now right.
+Qed.
+
+Lemma select_names_nodup pats : forall names, NoDup names -> NoDup (select_names pats names).
+Proof.
+  induction pats as [|p ps IH]; intros names H; simpl; [constructor|].
+  apply NoDup_app_disjoint; [apply NoDup_filter, H|apply IH, NoDup_filter, H|].
+  intros x Hx Hy. apply filter_In in Hx as [_ Px]. apply select_names_In in Hy as [Hy _].
+  apply filter_In in Hy as [_ Ny]. rewrite Px in Ny. discriminate.
+Qed.
+
 (* the resulting field list and each row's keys agree (as sets; the schema is in
    selection order, the row keeps its own order) *)
 Lemma select_lockstep pats names r k :
